@@ -280,9 +280,9 @@ dec_to_integer(const CharT* s, std::size_t length, T& value)
      
     while (cur < stop)
     {
-        uint8_t d;
-        if (JSONCONS_LIKELY((d = static_cast<uint8_t>(*cur - '0')) <= 9) )
+        if (JSONCONS_LIKELY(is_digit(*cur)))  // not `uint8_t(*cur - '0') <= 9`: a wide character is not reduced modulo 256
         {
+            const uint8_t d = static_cast<uint8_t>(*cur - '0');
             num = static_cast<T>(d) + num*10;
         }
         else
